@@ -67,7 +67,7 @@ func TestC13Receive(t *testing.T) {
 			sc.Close()
 			select {
 			case <-done:
-			case <-time.After(10 * time.Second):
+			case <-time.After(150 * time.Second):
 				c.Fatalf("C13: the receive loop did not stop when its socket was closed")
 			}
 		}()
@@ -76,8 +76,8 @@ func TestC13Receive(t *testing.T) {
 			case <-sc.taken:
 			case <-done:
 				c.Fatalf("C13: the receive loop ended after %s", what)
-			case <-time.After(20 * time.Second):
-				c.Fatalf("C13: the receive loop did not come back for the next datagram within 20 s after %s", what)
+			case <-time.After(150 * time.Second): // generous: a starved machine must not look like a hang
+				c.Fatalf("C13: the receive loop did not come back for the next datagram within 150 s after %s", what)
 			}
 		}
 		wait("start")
